@@ -8,6 +8,12 @@ R-SAUCE-AFFINE : the number of bytes `Buffer::write_sauce_info` appends, reconst
                  134 + 64 n otherwise; the count byte the writer stores must be comments.len().
 R-SAUCE-CUT    : in `Buffer::from_bytes` the local that bounds the content slice is only ever `bytes.len()` or
                  `len - sauce.sauce_header_len` (who-writes rule on the local), and it is what the loaders are handed.
+R-SAUCESTR-LEN : the fixed-width field type keeps its contents within the field: every place in the crate that builds a
+                 `SauceString<LEN, _>` (aggregate) does so from a vector proven to hold at most LEN bytes, every function that
+                 mutates the contents through `&mut self` ends with at most LEN bytes when it starts with none, and every call of
+                 such a mutator is made on an empty string - decided per instantiation (20, 22, 35, 64) with the interval
+                 analysis specialised to the const parameters.  Otherwise append_to writes more than LEN bytes and the
+                 record is no longer 128 bytes long.
 R-SAUCE-EXACT  : every shift / add / mul on header bytes in `SauceData::extract` whose result type is narrower than 64 bits is
                  value preserving (no wrap), decided with the interval analysis."""
 import re
@@ -82,8 +88,8 @@ def run(chk):
     _FACTS = f
     g = CallGraph(f)
     ip = Interproc(f, g)
-    chk.rules = ["R-SAUCE-AFFINE", "R-SAUCE-CUT", "R-SAUCE-EXACT"]
-    chk.assumptions = ["SauceString<N, _>::append_to appends exactly N bytes (its contents are at most N bytes by construction: from() truncates, read() reads N)",
+    chk.rules = ["R-SAUCE-AFFINE", "R-SAUCE-CUT", "R-SAUCE-EXACT", "R-SAUCESTR-LEN"]
+    chk.assumptions = ["SauceString<N, _>::append_to appends exactly N bytes provided its contents are at most N bytes (that proviso is rule R-SAUCESTR-LEN)",
                        "lengths < 2^31; 64-bit offset arithmetic does not wrap"]
     wb, rb, lb = f.bodies.get(WRITER), f.bodies.get(READER), f.bodies.get(LOADER)
     if not (chk.anchor(wb is not None, "R-SAUCE-AFFINE", "anchor missing: write_sauce_info") and chk.anchor(rb is not None, "R-SAUCE-AFFINE", "anchor missing: SauceData::extract")
@@ -463,5 +469,155 @@ def run(chk):
             if st.bottom:
                 break
     chk.floor("R-SAUCE-EXACT", "narrow arithmetic operations in extract", nar, 4)
+    nss = saucestr_len(chk, f, ip)
     return chk.finish("Writer: %d append sites, path sums %s, %s bytes per comment line; reader: header length %s; content length definitions and "
-                      "%d narrow arithmetic operations of the header decoder checked." % (nappend, sorted(final_norm), per_iter, sorted(got)[:2], nar))
+                      "%d narrow arithmetic operations of the header decoder checked; %d SauceString construction / mutation obligations (content <= field width)." % (nappend, sorted(final_norm), per_iter, sorted(got)[:2], nar, nss))
+
+
+# ===================================================================================================== R-SAUCESTR-LEN
+def _ss_insts(f, adt):
+    out = set()
+    for t in f.types:
+        if t["k"] == "adt" and t.get("adt") == adt:
+            m = re.search(r"<(\d+), (\d+)>$", t["s"])
+            if m:
+                out.add((int(m.group(1)), int(m.group(2))))
+    return sorted(out)
+
+
+def _touches_field(pj, adt):
+    return any(el != "*" and el[0] == "f" and el[3] == adt for el in (pj.get("p") or ()))
+
+
+def saucestr_len(chk, f, ip):
+    from analysis.absdom import State
+    adts = [k for k in f.adts if k.endswith("sauce_mod::SauceString")]
+    if not chk.anchor(len(adts) == 1, "R-SAUCESTR-LEN", "anchor missing: the SauceString type"):
+        return 0
+    SS = adts[0]
+    insts = _ss_insts(f, SS)
+    chk.floor("R-SAUCESTR-LEN", "SauceString instantiations", len(insts), 4)
+    nob = 0
+    builders, mutators = [], []
+    for bid, b in f.bodies.items():
+        if "{promoted" in bid:
+            continue
+        aggs = [(bi, k) for bi, k, s in b.stmts() if s["k"] == "assign" and s["rv"]["k"] == "agg" and s["rv"].get("adt") == SS]
+        muts = False
+        for bi, k, s in b.stmts():
+            if s["k"] != "assign":
+                continue
+            if _touches_field(s["p"], SS):
+                muts = True
+            rv = s["rv"]
+            if rv["k"] == "ref" and rv.get("mut") and _touches_field(rv["p"], SS):
+                muts = True
+        if aggs:
+            builders.append((b, aggs))
+        if muts:
+            mutators.append(b)
+    chk.floor("R-SAUCESTR-LEN", "bodies that build a SauceString", len(builders), 3)
+    chk.floor("R-SAUCESTR-LEN", "bodies that mutate a SauceString's contents", len(mutators), 1)
+
+    def runs(b):
+        """(LEN, analyzer) per instantiation for a generic body, one plain run otherwise"""
+        generic = ip.uses_cparams(b.id) or "<LEN" in b.id
+        for (ln, em) in (insts if generic else [(None, None)]):
+            an = Analyzer(f, interproc=ip)
+            if ln is not None:
+                an.cargs = {0: ln, 1: em}
+            yield ln, an
+
+    def bound_ok(st, term, ln):
+        hi = st.val_iv(("n", term, 0))[1]
+        return hi is not None and ln is not None and hi <= ln
+
+    # (a) aggregates: the vector handed to the constructor holds at most LEN bytes
+    for b, aggs in builders:
+        derived_clone = b.id.endswith("as std::clone::Clone>::clone")
+        for ln, an in runs(b):
+            an.analyze(b, collect=False)
+            for bi, k in aggs:
+                st = an.res.in_states.get(bi)
+                s = b.blocks[bi]["stmts"][k]
+                nob += 1
+                ok = False
+                why = "unreachable"
+                if st is None or st.bottom:
+                    ok = True
+                else:
+                    st = st.copy()
+                    for s0 in b.blocks[bi]["stmts"][:k]:
+                        an.do_stmt(st, s0)
+                    op = s["rv"]["ops"][0]
+                    pj = op.get("move") or op.get("copy")
+                    c = an.canon(st, pj) if pj is not None else None
+                    lim = ln
+                    if lim is None:
+                        # a concrete SauceString<N, _> built outside the impl: N from the destination type
+                        m = re.search(r"SauceString<(\d+), \d+>", b.tys(s["p"]["l"]) if not s["p"].get("p") else "")
+                        lim = int(m.group(1)) if m else None
+                    if derived_clone and c is not None:
+                        # #[derive(Clone)]: the operand is Vec::clone(&self.0), as long as the source - nothing to bound here
+                        ok = True
+                    elif c is not None:
+                        ok = bound_ok(st, ("len", c[0], c[1]), lim)
+                        why = "len <= %s not proven (upper bound %s)" % (lim, st.val_iv(("n", ("len", c[0], c[1]), 0))[1])
+                chk.obligation(ok)
+                if not ok:
+                    chk.finding("%s|saucestr-build|LEN=%s" % (b.short(), ln), rule="R-SAUCESTR-LEN", where="%s:%s" % (b.file, s.get("line")), fn=b.short(),
+                                what="a SauceString<%s, _> is built from a vector that may hold more than %s bytes (%s): append_to would write a longer field and shift the record" % (ln, ln, why))
+    # (b) mutators: empty on entry -> at most LEN bytes at every return; (c) their call sites start from an empty string
+    for b in mutators:
+        selfp = None
+        for i in range(1, b.argc + 1):
+            if b.tys(i).startswith("&mut sauce_mod::SauceString<"):
+                selfp = i
+        if selfp is None:
+            nob += 1
+            chk.obligation(False)
+            chk.finding("%s|saucestr-mutate|no-self" % b.short(), rule="R-SAUCESTR-LEN", where=b.file, fn=b.short(),
+                        what="the contents of a SauceString are modified outside a `&mut self` method of the type: the field-width invariant is not checked there")
+            continue
+        lt = ("len", selfp, ("*", "0"))
+        for ln, an in runs(b):
+            st0 = State()
+            st0.set_iv(lt, 0, 0)
+            an.analyze(b, entry=st0, collect=False)
+            for bi, blk in enumerate(b.blocks):
+                if blk["term"]["k"] != "return":
+                    continue
+                st = an.state_before_term(bi)
+                if st is None or st.bottom:
+                    continue
+                nob += 1
+                ok = bound_ok(st, lt, ln)
+                chk.obligation(ok)
+                if not ok:
+                    chk.finding("%s|saucestr-mutate|LEN=%s" % (b.short(), ln), rule="R-SAUCESTR-LEN", where="%s:%s" % (b.file, blk["term"].get("line")), fn=b.short(),
+                                what="called on an empty SauceString<%s, _> the method may leave more than %s bytes in it (upper bound %s)" % (ln, ln, st.val_iv(("n", lt, 0))[1]))
+        # call sites
+        for cb in f.bodies.values():
+            sites = [(bi, t) for bi, t in cb.calls() if (t["callee"].get("resolved_local") or t["callee"].get("local")) == b.id or ip.base(str(t["callee"].get("resolved_local") or "")) == b.id]
+            if not sites:
+                continue
+            an = Analyzer(f, interproc=ip)
+            an.analyze(cb, collect=False)
+            for bi, t in sites:
+                st = an.state_before_term(bi)
+                nob += 1
+                ok = False
+                if st is None or st.bottom:
+                    ok = True
+                else:
+                    a0 = t["args"][selfp - 1]
+                    pj = a0.get("move") or a0.get("copy")
+                    v = an.eval_op(st, a0)[0]
+                    if v[0] == "ref" and v[1] is not None and not isinstance(v[1], str):
+                        hi = st.val_iv(("n", ("len", v[1], tuple(v[2]) + ("0",)), 0))[1]
+                        ok = hi == 0
+                chk.obligation(ok)
+                if not ok:
+                    chk.finding("%s|saucestr-call|%s" % (cb.short(), b.short().split("::")[-1]), rule="R-SAUCESTR-LEN", where="%s:%s" % (cb.file, t.get("line")), fn=cb.short(),
+                                what="%s is called on a SauceString that is not proven empty: it appends up to LEN bytes to what is there" % b.short())
+    return nob
